@@ -59,6 +59,8 @@ def _interval_dict(d, tz):
                     out[k] = pd.DatetimeIndex(vals)
                 elif form == "index_freq":   # an index that carries its (calendar) frequency, as pd.date_range gives
                     out[k] = pd.DatetimeIndex(vals, freq="D")
+                elif form == "pylist":    # plain python datetime objects, as a user writes them
+                    out[k] = [x.to_pydatetime() for x in vals]
                 elif form == "objarray":  # what Series.to_numpy() gives for a (zone-aware) date column
                     arr = np.empty(len(vals), dtype=object)
                     for i_, x_ in enumerate(vals):
